@@ -18,7 +18,7 @@ use crate::props::Prop;
 pub const PROP: Prop = Prop {
     id: "C16",
     level: "exploration",
-    rule: "operation x length x shape x builder, one child process per case on a 2 MiB thread stack in the plain optimised profile: operations = parse from str/slice/reader, datum parse from reader (and from str at n <= 10^5), to_string, Display, to_writer, Cons::to_vec/into_vec/to_ref_vec, Value::to_vec/to_ref_vec, iter, list_iter, into_iter, get(n-1), [usize::MAX], is_list, is_dotted_list, clone, ==, drop, Datum clone/==/drop/list_iter/value conversion, serde to_value/from_value/to_string/from_str of Vec<u32>; lengths drawn log-uniformly from [2*10^5, 4*10^6] (two draws per operation in the quick tier, eight plus one 10^7 in the thorough tier); shapes proper, dotted and association list; comparisons of equal lists, of lists differing only at the end, at every position and at every second position; deserialisation of long inputs through a skipped unknown struct field, IgnoredAny, wrong-kind targets, a long vector and a long improper list; element kinds number, #nil, (), boolean, symbol, string, character, float, keyword, byte vector, empty vector and seven long runs of changing kind (drawn per case in the optimised profile, and ALL kinds under the element-touching operations drop, drop of a replaced tail, drop of a partly consumed into_iter, clone, ==, print, parse, parse failing at end of input with n elements collected, to_vec, Datum drop/clone/==/conversion in the unoptimised profile at 1-2*10^5 elements); builders parser, constructors and Serde. The child verifies its result against a model (length, last element, printed text). A child killed by a signal is a violation with signature op=<operation>. Every case is non-trivial: 2*10^5 elements is far beyond what per-element recursion survives on 2 MiB; distinct by (op, n, shape, builder)",
+    rule: "operation x length x shape x builder, one child process per case on a 2 MiB thread stack in the plain optimised profile: operations = parse from str/slice/reader, datum parse from reader (and from str at n <= 10^5), to_string, Display, to_writer, Cons::to_vec/into_vec/to_ref_vec, Value::to_vec/to_ref_vec, iter, list_iter, into_iter, get(n-1), [usize::MAX], is_list, is_dotted_list, clone, ==, drop, Datum clone/==/drop/list_iter/value conversion, serde to_value/from_value/to_string/from_str of Vec<u32>; lengths drawn log-uniformly from [2*10^5, 4*10^6] (two draws per operation in the quick tier, eight plus one 10^7 in the thorough tier); shapes proper, dotted and association list; a list spelled as a chain of n dotted pairs (must be refused by the nesting limit, in both APIs); comparisons of equal lists, of lists differing only at the end, at every position and at every second position; deserialisation of long inputs through a skipped unknown struct field, IgnoredAny, wrong-kind targets, a long vector and a long improper list; element kinds number, #nil, (), boolean, symbol, string, character, float, keyword, byte vector, empty vector and seven long runs of changing kind (drawn per case in the optimised profile, and ALL kinds under the element-touching operations drop, drop of a replaced tail, drop of a partly consumed into_iter, clone, ==, print, parse, parse failing at end of input with n elements collected, to_vec, Datum drop/clone/==/conversion in the unoptimised profile at 1-2*10^5 elements); builders parser, constructors and Serde. The child verifies its result against a model (length, last element, printed text). A child killed by a signal is a violation with signature op=<operation>. Every case is non-trivial: 2*10^5 elements is far beyond what per-element recursion survives on 2 MiB; distinct by (op, n, shape, builder)",
     assumptions: &[
         "stack independence is shown for the sampled lengths, on this platform, for the optimised (release-like) profile without debug assertions: frame sizes and tail-call elimination are compiler artefacts",
         "a watchdog expiry (120 s) is reported as inconclusive, never as a violation",
@@ -199,6 +199,23 @@ fn run_op(spec: &Spec) -> Json {
             let r = verify(&v, n, shape) && p.next_value().expect("end").is_none();
             std::mem::forget(v);
             r
+        }
+        "parse-dotted-chain" | "datum-parse-dotted-chain" => {
+            // a list spelled as a chain of dotted pairs nests once per element:
+            // the parser has to refuse it (nesting limit), not recurse n levels
+            let mut t = String::with_capacity(n * 7 + 4);
+            for _ in 0..n {
+                t.push_str("(0 . ");
+            }
+            t.push_str("()");
+            for _ in 0..n {
+                t.push(')');
+            }
+            if op == "parse-dotted-chain" {
+                lexpr::from_reader(Cursor::new(t.into_bytes())).is_err()
+            } else {
+                lexpr::datum::from_reader(Cursor::new(t.into_bytes())).is_err()
+            }
         }
         "parse-error-discard" | "datum-parse-error-discard" => {
             // the closing parenthesis is missing: the parser has to give up at
@@ -557,10 +574,10 @@ const VALUE_OPS: &[&str] = &[
     "value-to_ref_vec", "iter-count", "list_iter-count", "into_iter-count", "get-last", "index-max", "index-name", "is_list",
     "is_dotted_list", "clone", "eq", "ne-last", "ne-everywhere", "ne-half", "drop", "drop-tail", "into_iter-partial-drop",
 ];
-const PARSE_OPS: &[&str] = &["parse-str", "parse-slice", "parse-reader", "parse-iter", "parse-error-discard"];
+const PARSE_OPS: &[&str] = &["parse-str", "parse-slice", "parse-reader", "parse-iter", "parse-error-discard", "parse-dotted-chain"];
 const DATUM_OPS: &[&str] = &[
     "datum-parse-reader", "datum-clone", "datum-eq", "datum-ne-last", "datum-ne-everywhere", "datum-drop", "datum-list_iter", "datum-into-value", "datum-as_pair-walk",
-    "datum-parse-error-discard",
+    "datum-parse-error-discard", "datum-parse-dotted-chain",
 ];
 /// operations swept over every element kind in the unoptimised profile
 const KIND_SWEEP_OPS: &[&str] = &[
